@@ -1285,6 +1285,33 @@ impl SparqlDatabase {
             }
             line
         }
+        fn n3_prefix_declaration(line: &str) -> Option<(String, String)> {
+            let line = line.strip_prefix("@prefix")?.trim_end_matches('.');
+            let parts: Vec<&str> = line.split_whitespace().collect();
+            if parts.len() >= 2 {
+                Some((
+                    parts[0].trim_end_matches(':').to_string(),
+                    parts[1]
+                        .trim_start_matches('<')
+                        .trim_end_matches('>')
+                        .to_string(),
+                ))
+            } else {
+                None
+            }
+        }
+
+        // Prefix declarations in force at the start of every chunk (declared by earlier chunks).
+        let mut inherited_prefixes: Vec<HashMap<String, String>> = Vec::with_capacity(chunks.len());
+        let mut running: HashMap<String, String> = HashMap::new();
+        for chunk in &chunks {
+            inherited_prefixes.push(running.clone());
+            for raw_line in chunk {
+                if let Some((prefix, uri)) = n3_prefix_declaration(strip_n3_comment(raw_line)) {
+                    running.insert(prefix, uri);
+                }
+            }
+        }
 
         let partial_results: Vec<(
             Vec<Triple>,
@@ -1292,8 +1319,10 @@ impl SparqlDatabase {
             HashMap<String, String>,
         )> = chunks
             .par_iter()
-            .map(|chunk| {
+            .zip(inherited_prefixes.par_iter())
+            .map(|(chunk, inherited)| {
                 let mut local_db = SparqlDatabase::new();
+                local_db.prefixes = inherited.clone();
                 let mut statement = String::new();
 
                 for raw_line in chunk {
